@@ -48,7 +48,7 @@ def check(ctx):
                            f"field `{gname}` holds handles into allocator field `{f['name']}`; Rust drops fields in declaration order, so `{gname}` must be declared before `{f['name']}` (else teardown with buffered events frees them through a dropped pool)")
     ctx.floor("R05.1", 2)
     # ------------------------------------------------------------------ R05.2 / R05.3 / R05.4: shared with C14 / C13
-    for (mod, rules, prefix) in (("props.C14", ("R14.2", "R14.5"), {"R14.2": "R05.2", "R14.5": "R05.3"}), ("props.C13", ("R13.1",), {"R13.1": "R05.4"})):
+    for (mod, rules, prefix) in (("props.C14", ("R14.2", "R14.5"), {"R14.2": "R05.2", "R14.5": "R05.3"}), ("props.C13", ("R13.1", "R13.3"), {"R13.1": "R05.4", "R13.3": "R05.8"})):
         m = importlib.import_module(mod)
         sub = type(ctx)(ctx.pid, fx, ctx.tier, ctx.config)
         m.check(sub)
@@ -56,6 +56,15 @@ def check(ctx):
             if o["rule"] in rules and ("dealloc_id" in o["key"] or o["rule"] != "R13.1"):
                 r = prefix[o["rule"]]
                 ctx.ob(r, o["key"].split("|", 1)[1], o["ok"], o["site"], o["detail"], o["nontrivial"])
+    # ------------------------------------------------------------------ R05.9 buffered payloads leave a ring only through consume (counter protocol shared with C02 R02.1)
+    # (ring slots are ManuallyDrop: a `head` that is stored / jumped forward -- a constant-time 'discard all' -- forgets the payloads in between: they are never
+    #  destroyed, their reference counts never reach zero and their pool slots stay occupied)
+    C02 = importlib.import_module("props.C02")
+    class OnlyProtocol(util.PrefixedCtx):
+        def ob(self, rule, key, ok, site="", detail="", nontrivial=True, undecided=False):
+            if rule == "R02.1": return super().ob(rule, key, ok, site, detail, nontrivial, undecided)
+            return ok
+    C02.check(OnlyProtocol(ctx, "R05.9"))
     # ------------------------------------------------------------------ R05.5 leftovers & who-may-move-out
     for ring in (R.AM, R.FSM):
         kd = f"{ring} as std::ops::Drop::drop"
